@@ -483,7 +483,8 @@ SITES = {
     "rename-initializer-empty": "SNameEmpty",
     "graph-extend-partial": "SGExtend",
     "graph-insert-partial": "SGInsert",
-    "node-outputs-unchecked": "SNodeOutputs",
+    "node-outputs-repeated": "SNodeOutputsDup",
+    "node-output-owned": "SNodeOutputsOwned",
     "graph-ctor-partial": "SGraphNew",
 }
 
@@ -513,7 +514,7 @@ def site_of(op: list, outcome: str) -> str | None:
     if k in ("GInsertAfter", "GInsertBefore", "NAppend", "NPrepend") and outcome == "ValueError":
         return "graph-insert-partial"
     if k == "NewNode" and not raised and op[3][0] == "OGiven":
-        return "node-outputs-unchecked"
+        return "node-outputs-repeated" if len(set(op[3][1])) != len(op[3][1]) else "node-output-owned"
     if k == "GraphNew" and raised:
         return "graph-ctor-partial"
     # sites reached only by the oracle-only stream
